@@ -215,9 +215,11 @@ Definition eval (op : Z) (a : list float) : option (list float) :=
           do (t, r) <- ts_in a; do (q, r) <- rect_in r; do (rd, r) <- radii_in r;
           let rr := ts_mul_rrect_pinned t (mkRoundedRect q rd) in
           done r (rect_out (rr_rect rr) ++ radii_out (rr_radii rr))
+  | 66 => (* Ellipse::radii when svd takes the minor radius from the determinant (C10's repair) *)
+          do (m, r) <- aff_in a; done r (v_out (fst (aff_svd_det m)))
   | _ => None
   end.
 
-Definition tol (op : Z) : option float := if op <? 50 then None else Some 0x1.12e0be826d695p-30%float. (* 1e-9 *)
+Definition tol (op : Z) : option float := if (op <? 50) || (op =? 66) then None else Some 0x1.12e0be826d695p-30%float. (* 1e-9 *)
 Definition failures := Corr.failures eval tol.
 Definition outputs := Corr.outputs eval.
